@@ -1,8 +1,69 @@
+import DeapModel.Core.NDSort
 import Driver.Proto
-/-! Protocol handler for C04 (stub until the model is built). -/
+/-!
+Protocol handler for C04 (non-dominated sorting).
+
+* `run <proc> <pop> <ks> <ffos>`  proc = `std` (model A) | `log` (model B) | `spec` (peeling);
+  `pop` = `;`-separated weighted-value tuples (ids = positions); answers, for every `k` in `ks` and every
+  flag in `ffos` (`first_front_only`), the fronts as sorted id lists, joined by `|`.
+* `cert <pop> <fronts>`  runs the certificate checker on a complete list of fronts (id lists).
+-/
 namespace DriverC04
+open Proto NDSort
+
+def mkPop (ws : List (List Rat)) : List (Ind Rat) :=
+  (List.range ws.length).zipWith (fun i w => ⟨i, w⟩) ws
+
+/-- all tuples have the same length `m ≥ lo` -/
+def wellFormed (ws : List (List Rat)) (lo : Nat) : Bool :=
+  match ws with
+  | [] => true
+  | w :: _ => decide (lo ≤ w.length) && ws.all (fun v => v.length == w.length)
+
+def sortIds (l : List (Ind Rat)) : List Nat := (l.map (·.id)).mergeSort (fun a b => decide (a ≤ b))
+
+def showFront (f : List (Ind Rat)) : String := showList toString (sortIds f)
+
+def showFronts (fs : List (List (Ind Rat))) : String :=
+  if fs.isEmpty then "[]" else ";".intercalate (fs.map showFront)
+
+def showRes : Option (List (List (Ind Rat))) → String
+  | none => "nonterm"
+  | some fs => showFronts fs
+
+def runOne (proc : String) (pop : List (Ind Rat)) (k : Nat) (ffo : Bool) : String :=
+  if proc = "std" then showRes (sortStd pop k ffo)
+  else if proc = "log" then
+    if ffo then
+      (if k = 0 then showRes (sortLogFirst pop k |>.map fun _ => [])
+       else showRes ((sortLogFirst pop k).map fun f => [f]))
+    else showRes (sortLog pop k)
+  else if ffo then (if k = 0 then "[]" else showFronts [nondom domI pop])
+  else showFronts (leading (peel domI pop) k)
 
 def handle : List String → String
+  | ["run", proc, ps, kss, ffs] =>
+    match (do
+      let ws ← parseList2 parseRat ps
+      let ks ← parseList parseNat kss
+      let ffos ← parseList parseBool ffs
+      if !(proc = "std" || proc = "log" || proc = "spec") then none
+      if !(wellFormed ws (if proc = "log" then 2 else 1)) then none
+      if proc = "log" && ws.isEmpty then none
+      pure (mkPop ws, ks, ffos)) with
+    | some (pop, ks, ffos) =>
+      "|".intercalate (ks.flatMap fun k => ffos.map fun f => runOne proc pop k f)
+    | none => "bad-op"
+  | ["cert", ps, fs] =>
+    match (do
+      let ws ← parseList2 parseRat ps
+      let ids ← parseList2 parseNat fs
+      if !(wellFormed ws 1) then none
+      let pop := mkPop ws
+      let fronts ← ids.mapM (fun (f : List Nat) => f.mapM (fun i => pop[i]?))
+      pure (pop, fronts)) with
+    | some (pop, fronts) => showBool (checkRanking domI pop fronts)
+    | none => "bad-op"
   | _ => "bad-op"
 
 end DriverC04
